@@ -462,7 +462,7 @@ class Executor:
             return
         except (BreakExc, ContinueExc):
             raise Unsupported("break/continue outside loop")
-        if ct.returns is not None and not isinstance(result, VNone):
+        if ct.returns is not None and (not isinstance(result, VNone) or isinstance(ct.returns, TOptional)):
             result = self.coerce(result, ct.returns, "return")
         v = View(self, st, old=self.entry_view)
         if getattr(ct, "ghost_out", None):
@@ -1247,6 +1247,10 @@ class Executor:
             return VCallable(f"method:path.{attr}", bound=o)
         if isinstance(o, VOpaque) and getattr(o, "kind", None) == "z3model":
             return VCallable(f"method:z3model.{attr}", bound=o)
+        if isinstance(o, VOpaque) and getattr(o, "kind", None) == "idpool":
+            return VCallable(f"method:idpool.{attr}", bound=o)
+        if o.__class__.__name__ == "VZE":
+            return VCallable(f"method:ZExpr.{attr}", bound=o)
         if o.__class__.__name__ == "VCtx":
             from . import lib as _lib
 
